@@ -39,7 +39,10 @@ def main():
     meta = {"seed": sid, "property": prop, "repo_head": sh("git -C /repo rev-parse HEAD").stdout.strip(), "ran": []}
     try:
         env = f"cd {wt} && PYTHONPATH={wt} "
-        r = sh(env + f"/venv/bin/python {os.path.abspath(demo)}")
+        # the demo is run from inside the scratch worktree: Python puts the script's own directory first on sys.path
+        shutil.copy(demo, os.path.join(wt, "_seeded_demo.py"))
+        demo_in_wt = os.path.join(wt, "_seeded_demo.py")
+        r = sh(env + f"/venv/bin/python {demo_in_wt}")
         meta["demo_on_clean_tree_exit"] = r.returncode
         meta["ran"].append(f"PYTHONPATH=<clean worktree> python demo.py -> exit {r.returncode}")
         r = sh(f"git -C {wt} apply {os.path.abspath(patch)}")
@@ -50,7 +53,7 @@ def main():
         r = sh(env + "/venv/bin/python -m pytest -q -p no:cacheprovider 2>&1 | tail -1")
         meta["tests_with_patch"] = r.stdout.strip()
         meta["ran"].append(f"pytest in patched worktree -> {r.stdout.strip()}")
-        r = sh(env + f"/venv/bin/python {os.path.abspath(demo)}")
+        r = sh(env + f"/venv/bin/python {demo_in_wt}")
         meta["demo_on_patched_tree_exit"] = r.returncode
         meta["ran"].append(f"PYTHONPATH=<patched worktree> python demo.py -> exit {r.returncode}")
         confirmed = meta["demo_on_clean_tree_exit"] == 0 and meta["demo_on_patched_tree_exit"] != 0 and "149 passed" in meta["tests_with_patch"]
@@ -58,6 +61,7 @@ def main():
         print(json.dumps({k: meta[k] for k in ("demo_on_clean_tree_exit", "tests_with_patch", "demo_on_patched_tree_exit", "confirmed")}))
         if not confirmed:
             return 1
+        os.unlink(demo_in_wt)
         # run the checks against the patched worktree
         ev = f"/tmp/eval-{sid}-evidence"
         rp = f"/tmp/eval-{sid}-replays"
